@@ -8,7 +8,7 @@ from .core import TranslatorError
 OUTPUT = "HttpGen.v"
 ITEMS = ["TOKENRE", "_FIELD_VALUE_FORBIDDEN_CTL_RE", "VERSRE", "DIGITS", "HEXDIGITS", "SINGLETON_HEADERS",
          "EMPTY_BODY_METHODS", "_REQUEST_TARGET_FORBIDDEN_RE (optional)", "default limits", "MAX_MSG_QUEUE_SIZE",
-         "call-site modes", "empty_body rule", "payload re-raise rule"]
+         "call-site modes", "empty_body rule", "payload re-raise rule", "Content-Encoding rule"]
 P = "aiohttp/http_parser.py"
 
 
@@ -109,6 +109,20 @@ def generate() -> str:
         raise TranslatorError(f"feed_data: unrecognised re-raise condition: {t}")
     out.append(f"(* payload parser exceptions re-raised by feed_data: {t} *)\n"
                f"Definition payload_framing_errors_all_fatal : bool := {fatal_all}.\n")
+    # the recognised Content-Encoding token: handed on as written, or lower-cased
+    encs = [n for n in ast.walk(core.module(P)) if isinstance(n, ast.If)
+            and ast.unparse(n.test).startswith("enc.isascii() and enc.lower() in ")]
+    if len(encs) != 1 or len(encs[0].body) != 1 or not isinstance(encs[0].body[0], ast.Assign) \
+            or ast.unparse(encs[0].body[0].targets[0]) != "encoding" or encs[0].orelse:
+        raise TranslatorError("parse_headers: unrecognised Content-Encoding rule")
+    toks = sorted(core.literal(encs[0].test.values[1].comparators[0]))
+    if toks != ["br", "deflate", "gzip", "zstd"]:
+        raise TranslatorError(f"parse_headers: supported content codings changed: {toks}")
+    rhs = ast.unparse(encs[0].body[0].value)
+    if rhs not in ("enc", "enc.lower()"):
+        raise TranslatorError(f"parse_headers: unrecognised Content-Encoding value: {rhs}")
+    out.append(f"(* if {ast.unparse(encs[0].test)}: encoding = {rhs} *)\n"
+               f"Definition content_encoding_lowered : bool := {'true' if rhs == 'enc.lower()' else 'false'}.\n")
     for arg, nm in (("max_line_size", "default_max_line"), ("max_headers", "default_max_headers"), ("max_field_size", "default_max_field")):
         out.append(f"Definition {nm} : N := {int(_default('HttpParser', arg))}.")
     v = core.literal(core.find_assign("aiohttp/web_protocol.py", "MAX_MSG_QUEUE_SIZE"))
